@@ -17,6 +17,7 @@ import (
 	"fmt"
 	"math"
 	"math/rand"
+	"strings"
 
 	"github.com/lindb/lindb/pkg/encoding"
 	"github.com/lindb/lindb/pkg/stream"
@@ -91,6 +92,10 @@ func foAskBoth(c *core.Ctx, r *rand.Rand, h int, dec, fresh *encoding.FixedOffse
 	a := guard(c, fmt.Sprintf("fd size %d", h), func() string { return fmt.Sprint(dec.Size()) })
 	b := guard(c, fmt.Sprintf("fd size %d", fh), func() string { return fmt.Sprint(fresh.Size()) })
 	cmp("Size()", a, b)
+	if rejected && strings.Contains(what, "err too-short") && a != "0" {
+		// absolute form (theorem: fewer than two bytes leave THE fresh decoder): does not rely on the twin
+		c.Fail(keyStale, fmt.Sprintf("FixedOffsetDecoder %s: Size() = %s after an input of fewer than two bytes", what, a))
+	}
 	a = guard(c, fmt.Sprintf("fd width %d", h), func() string { return fmt.Sprint(dec.ValueWidth()) })
 	b = guard(c, fmt.Sprintf("fd width %d", fh), func() string { return fmt.Sprint(fresh.ValueWidth()) })
 	cmp("ValueWidth()", a, b)
